@@ -24,9 +24,10 @@ ASSUMPTIONS = ["pool orientation token0 = WETH = quote; account quote token USD;
 TOL = F(1, 10 ** 28)
 
 
-def close(a, b):
+def close(a, b, scale=F(0)):
+    """equal up to the 35-digit rounding of the operands (`scale` = magnitude of what was added / subtracted)"""
     a, b = L.fr(a), L.fr(b)
-    return a == b or abs(a - b) <= TOL * max(abs(a), abs(b), F(1, 10 ** 6))
+    return a == b or abs(a - b) <= TOL * max(abs(a), abs(b), abs(scale), F(1, 10 ** 6))
 
 
 FIELDS = ["net_value", "collateral_amount", "collateral_value", "osqth_long_amount", "osqth_short_amount", "osqth_short_in_eth",
@@ -91,8 +92,9 @@ def oracle(ctx, state, env, envj, tw, to, cur, obs, replay, last):
     if "balance" in obs:
         want["osqth_long_amount"] = next(L.fr(b) for n, b in state["wallet"] if n == "OSQTH")
         want["osqth_net_amount"] = want["osqth_long_amount"] - short
+        scale = {"net_value": coll * weth + short * mark_usd, "osqth_net_amount": want["osqth_long_amount"] + short}
         for f, x in want.items():
-            if not close(obs["balance"][f], x):
+            if not close(obs["balance"][f], x, scale.get(f, F(0))):
                 ctx.violate(f"squeeth.balance.{f}", f"after {last}: get_market_balance().{f} = {obs['balance'][f]}, raw vault state gives {float(x):.15g}", replay)
         if obs["balance"]["vault_count"] != len(state["vaults"]):
             ctx.violate("squeeth.balance.vault_count", f"vault_count {obs['balance']['vault_count']} != {len(state['vaults'])}", replay)
@@ -114,7 +116,7 @@ def oracle(ctx, state, env, envj, tw, to, cur, obs, replay, last):
     if "account_net_value" in obs and "balance" in obs:
         wallet = sum((L.fr(b) * (weth if n == "WETH" else mark_usd) for n, b in state["wallet"]), F(0))
         total = wallet + want["net_value"] + uni_want * weth
-        if not close(obs["account_net_value"], total):
+        if not close(obs["account_net_value"], total, wallet + coll * weth + short * mark_usd + uni_want * weth):
             ctx.violate("squeeth.account.net_value", f"after {last}: account net value {obs['account_net_value']}, independent valuation {float(total):.15g}", replay)
     return idx
 
